@@ -88,4 +88,5 @@ def main() -> None:
     net.finish("bounded", f"stream names of every length 0..{top-1} (options row length sweeps through 10 and 128) x both framings x frame sizes {{1,250}}; reference-encoder streams with 0..2 leading empty frames",
                "each case = (options-row length, framing, frame size), one header of the enumerated header domain, or one frame size on a varint boundary")
 if __name__ == "__main__":
-    main()
+    from common import run_main
+    run_main(main, "C08")
